@@ -94,6 +94,9 @@ pub fn exec(op: &str, a: &[u64]) -> Result<Outcome, String> {
             let threads = r.nat()? as u8;
             let mode = r.nat()?;
             let lines: Vec<(String, Vec<Vec<u8>>)> = r.list(|r| Ok((r.string()?, r.list(|r| r.bytes())?)))?;
+            // the dictionary observed by the generating run is for the model (which of several equally frequent tokens
+            // survive the max_size cut is not fixed by the property); this run's dictionary is judged by the oracle
+            let _obs = r.opt(|r| Ok((r.nat()?, r.list(|r| Ok((r.bytes()?, r.nat()?)))?)))?;
             r.end()?;
             let raw: Vec<String> = lines.iter().map(|l| l.0.clone()).collect();
             for (l, toks) in &lines {
@@ -107,12 +110,7 @@ pub fn exec(op: &str, a: &[u64]) -> Result<Outcome, String> {
                 Err(_) => return Ok(Outcome::new(err("create"))),
             };
             let it = items(&d);
-            let mut v = vec![d.freq_sum as u64, it.len() as u64];
-            for (k, f) in &it {
-                enc_bytes(&mut v, k.as_bytes());
-                v.push(*f as u64);
-            }
-            let mut o = Outcome::new(ok(v));
+            let mut o = Outcome::new("accept".to_string());
             // oracle: independent count
             let used = mq.unwrap_or(usize::MAX).min(raw.len());
             let mut counts: HashMap<String, usize> = HashMap::new();
@@ -381,6 +379,17 @@ pub fn run_c20(ctx: &mut Ctx) {
             for t in toks {
                 enc_bytes(&mut v, t.as_bytes());
             }
+        }
+        match std::panic::catch_unwind(|| create(&lines, ms, mq, threads as u8, mode)) {
+            Ok(Ok(d)) => {
+                let it = items(&d);
+                v.extend([1, d.freq_sum as u64, it.len() as u64]);
+                for (k, f) in &it {
+                    enc_bytes(&mut v, k.as_bytes());
+                    v.push(*f as u64);
+                }
+            }
+            _ => v.push(0),
         }
         ctx.case("dictcreate", &v);
         // closest-entry queries on a small dictionary with frequency ties
